@@ -13,12 +13,14 @@ func C14_lists() {
 	e := Extension{Parameters: cfg}
 	firstOK := -1
 	acceptedAt := -1
+	var offers []Parameters
 	for i := 0; i < n; i++ {
 		off := Parameters{
 			ServerNoContextTakeover: vChoose("off.snct", 2) == 1,
 			ServerMaxWindowBits:     []WindowBits{0, 9, 15}[vChoose("off.sbits", 3)],
 			ClientMaxWindowBits:     []WindowBits{0, 1, 12}[vChoose("off.cbits", 3)],
 		}
+		offers = append(offers, off)
 		single := Extension{Parameters: cfg}
 		a1, _ := single.Negotiate(off.Option())
 		if len(a1.Name) != 0 && firstOK < 0 {
@@ -32,6 +34,12 @@ func C14_lists() {
 		}
 	}
 	vAssert(acceptedAt == firstOK, "lists.first_acceptable_wins")
+	// what the negotiator reports as accepted is the accepted offer, whatever came after it
+	got, ok := e.Accepted()
+	vAssert(ok == (acceptedAt >= 0), "lists.accepted_flag")
+	if acceptedAt >= 0 {
+		vAssert(got == offers[acceptedAt], "lists.accepted_reports_the_accepted_offer")
+	}
 	// other extensions are never answered
 	other := httphead.Option{Name: []byte("x-other")}
 	fresh := Extension{Parameters: cfg}
